@@ -32,6 +32,7 @@ Proof.
     rewrite removelast_map_seq. intros H. apply in_app_or in H. destruct H as [H|[<-|[]]]; [|lra].
     apply in_map_iff in H. destruct H as [i [<- Hi]]. apply in_seq in Hi. rsimpl. rewrite ofN_R.
     replace (S m - 1)%nat with m by lia.
+    replace (m =? 0)%nat with false by (symmetry; apply Nat.eqb_neq; lia).
     assert (Hm : 0 < INR m) by (apply lt_0_INR; lia).
     assert (H0 : 0 <= INR i) by apply pos_INR.
     assert (H1 : INR i < INR m) by (apply lt_INR; lia).
@@ -41,7 +42,8 @@ Proof.
     replace (INR i * ((b - a) / INR m) + a) with (a + (INR i / INR m) * (b - a)) by (field; lra).
     nra.
   - apply Nat.ltb_ge in E. intros H. apply in_map_iff in H. destruct H as [i [<- Hi]].
-    apply in_seq in Hi. assert (i = 0)%nat by lia. subst i. rsimpl. rewrite ofN_R. simpl INR. lra.
+    apply in_seq in Hi. assert (i = 0)%nat by lia. subst i. rsimpl. rewrite ofN_R. simpl INR.
+    destruct (n - 1 =? 0)%nat; lra.
 Qed.
 
 (* ------------------------------------------------- Haar-Euler grid: unit *)
